@@ -146,6 +146,13 @@ def run_case(ctx, g, rng):
         row = [rng.choice(OTHER) if rng.random() < 0.5 else str(i) for _ in range(ncols)]
         row[col] = cells[i]
         rows.append(row)
+    if rows and rng.random() < 0.15:
+        # the first cell of the table (of the header, when there is one) starts like a comment line of other tools: '#', '//',
+        # ';', '%' - characters like any other in a table of string cells (seed C16-P: a "#"-preamble kept verbatim)
+        lead = rng.choice(["#", "# ", "//", ";", "%", "--", "#curie_map: "])
+        for r_ in rows[:rng.randint(1, 2)]:
+            r_[0] = lead + r_[0]
+        S.counters["wl:first-cells-that-look-like-comment-lines"] += 1
     if rows and rng.random() < 0.12:
         # U+FEFF as the first character of the first cell (of the header, when there is one): a character like any other
         rows[0][0] = "\ufeff" + rows[0][0]
@@ -194,6 +201,8 @@ def run_case(ctx, g, rng):
     head = [rng.choice(["h", "uri", "", "h\nx", "a b"]) + str(j) for j in range(ncols)] if header else None
     if head and rng.random() < 0.12:
         head[0] = "\ufeff" + head[0]
+    elif head and rng.random() < 0.15:
+        head[0] = rng.choice(["#", "# ", "//", ";"]) + head[0]
     lt = rng.choice(["\n", "\r\n"])
     for meth in ("file_compress", "file_expand"):
         strict, pt = rng.choice([(False, False), (False, True), (True, False), (True, True)])
